@@ -151,7 +151,7 @@ func (f *Flat) consumes(fi *FuncInfo, n *GNode, E types.Object, o flowOpts) (boo
 					}
 					return true, "re-wrapped in place: " + why // obligation continues with the same variable (handled by caller)
 				}
-				if o.depth > 4 {
+				if o.depth > 10 {
 					return false, "transfer chain too deep"
 				}
 				o2 := o
@@ -248,7 +248,7 @@ func (f *Flat) errorConsumed(fi *FuncInfo, A int, E types.Object, o flowOpts) fl
 					if strings.Contains(why, "(sanitised)") {
 						o2.sanitised = true
 					}
-					if o2.depth > 4 {
+					if o2.depth > 10 {
 						return flowResult{false, "re-wrap chain too deep", f.P.pos(n.Ast)}
 					}
 					res := f.errorConsumed(fi, id, E, o2)
